@@ -441,6 +441,14 @@ def decide_path(ob, path, claims, assume_f, replay_fn, dump=None):
             pass
     r = _check(s, pv, ob.solver_timeout_ms / 1000.0 + 5)
     if r == "unsat":
+        # vacuity guard: the path's own constraints must be satisfiable, otherwise `unsat` proves nothing
+        sv = _solver(min(ob.solver_timeout_ms, 60000))
+        sv.add(base)
+        rv = _check(sv, pv)
+        if rv == "unsat":
+            pv.status = "inconclusive"
+            pv.detail = "vacuous path: bounds, assumptions, path condition and definitions are jointly unsatisfiable"
+            return pv
         pv.status = "holds"
         pv.relaxed_only = bool(monos)
         return pv
